@@ -14,16 +14,22 @@
   the model is `emphasis_unbounded` / `full_statement_false`; the proved part is
   `depth_bounded_partial` (depth NOT counting emphasis wrappers).
 
-  Property theorems:
-    over_limit_degrades_block / _inline / _skip
-    block_frames_bounded, inline_frames_bounded, recursion_bounded, parse_stack_bounded,
-    depth_bounded_partial, depth_bounded_partial_weak, depth_oracle_bound,
-    tree_depth, walk_render_drop_recursion, walk_bounded_without_emphasis,
-    sites_needed, sites_needed_depth, bounded_iff_raising, currentSites_raising,
-    emphasis_unbounded, full_statement_false,
-    trace_bounded, trace_of_run
+  Property theorems (all for EVERY limit `N`, every admissible run, every raising table):
+    currentSites_raising, sites_toList            the tie to the source (one `decide` each)
+    over_limit_degrades (_block / _inline / _skip)
+    block_frames_bounded   ≤ N + 1      inline_frames_bounded ≤ N + 2     recursion_bounded ≤ N + 2
+    parse_stack_bounded    ≤ 2·N + 3    (walk_recursive frames of the inline pass included)
+    depth_bounded_partial  ≤ 2·N + 2    (…_weak: 3·N + 1 if a list costs one level only)
+    depth_oracle_bound     ≤ 4·N + 16   (the harness oracle's bound)
+    block_frames_tight, recursion_tight, depth_tight, parse_stack_tight, limit_zero
+    tree_depth, walk_render_drop_recursion, walk_of_run,
+    depth_excess_is_emphasis, walk_bounded_up_to_emphasis
+    sites_needed, sites_needed_depth, bounded_iff_raising
+    emphasis_unbounded, full_statement_false        (negation witness of the full statement)
+    trace_bounded, trace_prefix_bounded, trace_of_run   (the driver's trace checker)
 -/
 import MdIt.Model.Nesting
+import MdIt.Gen.Consts
 
 namespace MdIt.Nesting
 
@@ -36,6 +42,24 @@ theorem Sites.raising_iff (s : Sites) :
 
 /-- the tie to the source: all five sites of the code on disk raise the level -/
 theorem currentSites_raising : currentSites.raising = true := by decide
+
+/-- a table read off the source (`Gen.Consts.levelSites : List Nat`) that equals
+`currentSites.toList` IS `currentSites`; so the obligation is
+`Gen.Consts.levelSites = currentSites.toList := by decide`. -/
+theorem sites_toList (s : Sites) (h : s.toList = currentSites.toList) : s = currentSites := by
+  cases s
+  simp [Sites.toList, currentSites] at h ⊢
+  omega
+
+example : Sites.ofList currentSites.toList = some currentSites := by decide
+
+/-- **Tie to the source (regenerated on every run).** The level increments found by the static scan of
+the five recursive call sites in /repo are exactly the table the bounds are proved for. A reverted
+increment turns a `1` into a `0` in `Gen.Consts.levelSites` and this obligation fails. -/
+theorem gen_levelSites : MdIt.Gen.Consts.levelSites = currentSites.toList := by decide
+
+theorem gen_sites_raising :
+    (Sites.ofList MdIt.Gen.Consts.levelSites).map Sites.raising = some true := by decide
 
 /-! ## Over the limit nothing nests -/
 
@@ -67,6 +91,21 @@ theorem over_limit_degrades_skip (s : Sites) (N L : Nat) (hL : N ≤ L) (t : Ski
     (h : Skip.ok s N L t = true) : t = Skip.tok [] := by
   cases t with
   | tok nested => cases nested <;> simp_all [Skip.ok] <;> omega
+
+/-- **C02 (degradation).** Constructs nested beyond the limit degrade to plain text or are
+skipped: at `level ≥ N` a block tokenizer produces nothing, an inline tokenizer text only, and
+`skip_token` calls no rule. -/
+theorem over_limit_degrades (s : Sites) (N L : Nat) (hL : N ≤ L) :
+    (∀ fs, Blk.okL s N L fs = true → fs = []) ∧
+    (∀ fs, Inl.okL s N L fs = true → ∀ f ∈ fs, f = Inl.text) ∧
+    (∀ t, Skip.ok s N L t = true → t = Skip.tok []) :=
+  ⟨over_limit_degrades_block s N L hL, over_limit_degrades_inline s N L hL,
+    over_limit_degrades_skip s N L hL⟩
+
+/-- non-vacuity: a tokenizer AT the limit is entered by admissible runs (its frame exists, it is
+just empty): 3 quotes under limit 3, the innermost tokenizer runs at level 3 -/
+example : Doc.ok currentSites 3 [.quote [.quote [.quote []]]] = true ∧
+    Doc.ok currentSites 3 [.quote [.quote [.quote [.leaf]]]] = false := by decide
 
 /-! ## Frames -/
 
@@ -1142,7 +1181,13 @@ theorem trace_of_run (s : Sites) (N : Nat) (d : Doc) (h : Doc.ok s N d = true) :
   congr 1; omega
 
 
-deriving instance DecidableEq for Except
+instance traceResultDecEq : DecidableEq (Except TraceErr Nat)
+  | .ok a, .ok b =>
+    if h : a = b then isTrue (by rw [h]) else isFalse (by intro h'; cases h'; exact h rfl)
+  | .error a, .error b =>
+    if h : a = b then isTrue (by rw [h]) else isFalse (by intro h'; cases h'; exact h rfl)
+  | .ok _, .error _ => isFalse (by intro h; cases h)
+  | .error _, .ok _ => isFalse (by intro h; cases h)
 
 example : checkTrace currentSites 5 (Doc.trace currentSites exRun) = .ok 4 := by decide
 /-- a pre-repair trace (`'>' × 3`, nothing raises the level) is rejected under the current table -/
